@@ -1,2 +1,3 @@
-/- driver stub for C12: replaced when the model exists -/
-def main : IO Unit := pure ()
+/- driver for C12: lockstep model of the transaction state machines (shared with C11) -/
+import BacVerif.Drv.TsmDrv
+def main : IO Unit := BacVerif.Drv.tsmMain
